@@ -168,9 +168,7 @@ def handle (st : St) (line : String) : St × String :=
      | _ => (st, "bad-request"))
   | [.atom "mapsort", v] =>
     (match parseVal v with
-     | some (.map es) =>
-       (st, valStr (.map (if keysComparable (es.map Prod.fst) then Sorting.sortEntries F es
-         else (Sorting.trySortBy (fun b a => some (keyCmp F b.1 a.1 == .lt)) es).1)))
+     | some (.map es) => (st, valStr (.map (Sorting.sortEntries F es)))
      | _ => (st, "bad-request"))
   | [.atom "flaws", a, b, c] =>
     (match parseVal a, parseVal b, parseVal c with
